@@ -513,10 +513,9 @@ var signatureTable = map[string]func(a aux) bool{
 	},
 
 	"c02-export-quadratic-depth": func(a aux) bool {
-		if !in(a["construct"], "data-list", "data-nested-array", "data-prototype-chain", "data-closure-chain") || a["route"] != "Export" || a["phase"] != "fatal" {
-			return false
-		}
-		return (a["class"] == "out-of-memory" && a["site"] == "Value.exportSeen") || (a["class"] == "hang" && a["depth"] == "1000000")
+		// what is left after d1cf1ab: only nested arrays (a Go slice type per level)
+		return a["construct"] == "data-nested-array" && a["route"] == "Export" && a["phase"] == "fatal" && in(a["depth"], "100000", "1000000") &&
+			a["class"] == "out-of-memory" && in(a["site"], "Value.exportSeen", "Value.export")
 	},
 }
 
